@@ -38,7 +38,7 @@ ASSUMPTIONS = [
     "Totals vs sums of per-individual terms and alone-vs-batch comparisons use rtol 1e-5 (summation order); `others` relations are bit-exact (same positions); under a permutation per-individual terms are compared within 64 ulp (vectorised kernels round position-dependently) and scipy_minimize outputs within 1e-4 once the start-point draws are permuted with the individuals (the harness re-seeds torch per identifier just before each subject's start point is drawn); initial parameters within one 2^-16 rounding step.",
     "Personalised parameters are compared across a permutation only for scipy_minimize (deterministic, per-individual); chain-based algorithms are compared under `others` with positions fixed.",
 ]
-REQUIRED_CLASSES = {"others": 150, "alone": 150, "permute": 150, "permute:non-identity": 100, "others:sampler-step": 100, "others:personalize": 60,
+REQUIRED_CLASSES = {"others:personalize:one-other-individual-overflows": 10, "others": 150, "alone": 150, "permute": 150, "permute:non-identity": 100, "others:sampler-step": 100, "others:personalize": 60,
                     "permute:initialisation": 60, "kind:joint": 60, "workers": 6, "hashseed": 2, "nontrivial": 80}
 
 WORDS = ["zeta", "alpha", "Mike", "bravo", "x10", "x9", "kilo", "Beta", "s10", "s2", "delta", "A"]
@@ -57,8 +57,9 @@ def ids_in_order(cohort):
     return seen
 
 
-def replace_others(cohort, keep_id, vals, kind):
-    """Same ages and missingness, new observed values for every individual except `keep_id` (events of the others changed too)."""
+def replace_others(cohort, keep_id, vals, kind, huge=None):
+    """Same ages and missingness, new observed values for every individual except `keep_id` (events of the others changed too).
+    huge: the first replaced value of a continuous outcome becomes this number (another individual's likelihood overflows)."""
     nf = len(cohort["features"])
     out = dict(cohort)
     rows = []
@@ -76,6 +77,8 @@ def replace_others(cohort, keep_id, vals, kind):
                         r[j] = round(2.5 * v, 5)
                     else:
                         r[j] = 1.0 if v > 0 else 0.0
+                    if huge is not None and k == 1 and kind in ("logistic", "linear"):
+                        r[j] = float(huge)
         rows.append(r)
     out["rows"] = rows
     return out
@@ -224,7 +227,9 @@ def body(col: Collector, case):
                 elif not torch.allclose(a, b, rtol=1e-5, atol=1e-6 * float(tval(sA[per]).double().abs().sum() + 1)):
                     raise Fail(f"totals:{tot}-is-not-the-sum-of-{per}", float(a), float(b))
         # ---------------------------------------------------------------- others
-        cohB = replace_others(cohort, keep, case["other_vals"], kind)
+        cohB = replace_others(cohort, keep, case["other_vals"], kind, case.get("other_huge"))
+        if case.get("other_huge") is not None and kind in ("logistic", "linear"):
+            base_classes = base_classes + ["others:one-other-individual-overflows"]
         dfB, dataB, dsB = gen.dataset_from_case(cohB)
         sB = fresh_state(sA)
         with sB.auto_fork(None):
@@ -270,7 +275,8 @@ def body(col: Collector, case):
             for k in a:
                 if not same(a[k], b[k]):
                     raise Fail(f"others:personalised-{case['algo']}-depends-on-other-individuals", f"{k} = {b[k].tolist()}", f"{k} = {a[k].tolist()}")
-            col.case(classes=["others:personalize", "perso:" + case["algo"]], sample=None)
+            col.case(classes=["others:personalize", "perso:" + case["algo"]] + (["others:personalize:one-other-individual-overflows"]
+                     if "others:one-other-individual-overflows" in base_classes else []), sample=None)
         # ---------------------------------------------------------------- alone
         from leaspy.io.data import Dataset
 
@@ -362,7 +368,8 @@ def rel_case(draw, kinds):
                 other_vals=draw(st.lists(gen.f32(-1, 1), min_size=2, max_size=8)), perm=draw(st.lists(st.integers(0, 20), min_size=3, max_size=8)),
                 relabel=draw(st.booleans()), var=draw(st.integers(0, 2)), seed=draw(st.integers(0, 9999)),
                 std_factor=draw(st.sampled_from([0.1, 1.0, 1.0, 5.0])),
-                algo=draw(st.sampled_from(["none", "none", "scipy_minimize", "mode_posterior", "mean_posterior"])))
+                algo=draw(st.sampled_from(["none", "none", "scipy_minimize", "mode_posterior", "mean_posterior"])),
+                other_huge=draw(st.sampled_from([None, None, None, 1e20, -1e20, 1e30])))
 
 
 def shard_rel(kinds, seed: int, n_examples: int, shard: int = 0):
